@@ -3250,7 +3250,9 @@ class UTPM(Ring, RawAlgorithmsMixIn):
         D,P = a.data.shape[:2]
 
         if out is None:
-            r = cls(numpy.zeros(a.data.shape, dtype=complex))
+            # the result shape depends on n
+            shp = numpy.fft.fft(a.data[0,0], n=n, axis=axis).shape
+            r = cls(numpy.zeros((D,P) + shp, dtype=complex))
 
         else:
             r, = out
@@ -3285,7 +3287,9 @@ class UTPM(Ring, RawAlgorithmsMixIn):
         D,P = a.data.shape[:2]
 
         if out is None:
-            r = cls(numpy.zeros(a.data.shape, dtype=complex))
+            # the result shape depends on n
+            shp = numpy.fft.ifft(a.data[0,0], n=n, axis=axis).shape
+            r = cls(numpy.zeros((D,P) + shp, dtype=complex))
 
         else:
             r, = out
